@@ -97,14 +97,19 @@ pub fn plan(tier: &str) -> Plan {
         let split = if thorough && core { 4 } else { 1 };
         units.push(Unit::explore_split(Job::new(format!("c01/{}", sc.name()), cfg.clone(), Some(bound), body(sc, oracle)), split));
     }
+    // the quick scenarios once more on the async-trait (+ cluster + monitors) build of the harness:
+    // callbacks are boxed `dyn Future`s there and the exit path also serves monitors
+    for sc in scenarios(false) {
+        units.push(alt_unit(format!("alt/c01/{}", sc.name()), cfg.clone(), Some(2), body(sc, oracle), 1));
+    }
     Plan {
         property: "C01",
         units,
         rule: "per scenario (actor kind x spawn variant x callback program x exit cause x stimuli) a stateless DFS over task-level schedules of the real actor loop (decision point wherever a task blocks, finishes, or several are runnable), deviation-bounded; the oracle is a per-actor automaton over the Enter/Tick/Exit/Cancelled trace logged by the callbacks; non-trivial = execution with >= 1 branching decision; distinct = distinct choice vectors".into(),
         assumptions: vec![
             "task granularity: a callback is only interleaved with other tasks at its await points (what one executor thread can produce)".into(),
-            "default build (native async traits, tokio-flavoured select!)".into(),
+            "tokio-flavoured select! (the async-std feature is not built); the alt/ units run on a second build of the harness with ractor's async-trait, cluster and monitors features".into(),
         ],
-        engine: "vsched (shuttle coroutines + deviation-bounded DFS) on the real ractor code",
+        engine: "vsched (shuttle coroutines + deviation-bounded DFS) on the real ractor code, builds: default and async-trait",
     }
 }
